@@ -1,5 +1,231 @@
 //! Verification hook ops for module `blame` (see mod.rs for the protocol).
+//!
+//! All ops use the current Config (set by `cfg`): `--blame-palette`, `--blame-format`,
+//! `--blame-separator-format`, `--blame-timestamp-format`, `--blame-timestamp-output-format`.
+//!
+//! blame.parse <line>          real `parse_git_blame_line`:
+//!                             `ok none` | `ok <commit> <author> <time> <n> <code>`
+//!                             (time rendered with the fixed format `%Y-%m-%d %H:%M:%S %z`)
+//! blame.format_data           `parse_line_number_format(config.blame_format, BLAME_PLACEHOLDER_REGEX)`:
+//!                             `ok <n> <item>...`, item = `<prefix>,<t|a|c|->,<l|c|r|->,<width|->,<precision|->,<suffix>`
+//! blame.sep_data              `config.blame_separator_format`:
+//!                             `ok <on|block|every>,<n>,<prefix>,<width|->,<l|c|r|->,<suffix>`
+//! blame.meta <line>           real `format_blame_metadata` on the parsed line:
+//!                             `ok none` | `ok <metadata> <measure_text_width(metadata)> <timestamp field as rendered>`
+//! blame.number <n> <0|1>      real `format_blame_line_number`: `ok <prefix> <number> <suffix>`
+//! blame.widths <s>            `ok <str width> <measure_text_width> <char width>...` (unicode-width, per char)
+//! blame.stream <n> <raw line>...
+//!                             drives the real `StateMachine::handle_blame_line` (falling back to
+//!                             `emit_line_unchanged`) over the lines, starting from a fresh machine:
+//!                             `ok <item>...`, item = `<handled 0|1>,<colour|git|->,<row text>`
+//!                             colour = `blame_key_colors[key]` after the line (hex string), `git` when the
+//!                             raw line carried its own style, row text = ANSI-stripped output row.
+//!                             `delta_unreachable` exits the process with status 2 (seen as DIED 2).
+use unicode_width::{UnicodeWidthChar, UnicodeWidthStr};
 
-pub fn handle(op: &str, _args: &[&str]) -> Result<String, String> {
-    Err(format!("unknown op: blame.{op}"))
+use super::{config, hex, num, unhex};
+use crate::ansi;
+use crate::delta::{State, StateMachine};
+use crate::format::{self, Align, Placeholder};
+use crate::handlers::blame::{
+    format_blame_line_number, format_blame_metadata, parse_git_blame_line, BlameLineNumbers,
+    BLAME_PLACEHOLDER_REGEX,
+};
+use crate::paint;
+use crate::style::Style;
+
+const FIXED_TIME_FORMAT: &str = "%Y-%m-%d %H:%M:%S %z";
+
+fn align_code(a: Option<Align>) -> &'static str {
+    match a {
+        Some(Align::Left) => "l",
+        Some(Align::Center) => "c",
+        Some(Align::Right) => "r",
+        None => "-",
+    }
+}
+
+fn opt_num(n: Option<usize>) -> String {
+    n.map(|n| n.to_string()).unwrap_or_else(|| "-".to_string())
+}
+
+pub fn handle(op: &str, args: &[&str]) -> Result<String, String> {
+    let cfg = config();
+    match (op, args) {
+        ("parse", [line]) => {
+            let line = unhex(line)?;
+            Ok(
+                match parse_git_blame_line(&line, &cfg.blame_timestamp_format) {
+                    None => "ok none".to_string(),
+                    Some(b) => format!(
+                        "ok {} {} {} {} {}",
+                        hex(b.commit),
+                        hex(b.author),
+                        hex(&b.time.format(FIXED_TIME_FORMAT).to_string()),
+                        b.line_number,
+                        hex(b.code)
+                    ),
+                },
+            )
+        }
+        ("format_data", []) => {
+            let data =
+                format::parse_line_number_format(&cfg.blame_format, &BLAME_PLACEHOLDER_REGEX, false);
+            let items: Vec<String> = data
+                .iter()
+                .map(|d| {
+                    let ph = match d.placeholder {
+                        Some(Placeholder::Str("timestamp")) => "t",
+                        Some(Placeholder::Str("author")) => "a",
+                        Some(Placeholder::Str("commit")) => "c",
+                        None => "-",
+                        _ => "?",
+                    };
+                    format!(
+                        "{},{},{},{},{},{}",
+                        hex(d.prefix.as_str()),
+                        ph,
+                        align_code(d.alignment_spec),
+                        opt_num(d.width),
+                        opt_num(d.precision),
+                        hex(d.suffix.as_str())
+                    )
+                })
+                .collect();
+            Ok(format!("ok {} {}", items.len(), items.join(" ")))
+        }
+        ("sep_data", []) => {
+            let (kind, n, f) = match &cfg.blame_separator_format {
+                BlameLineNumbers::On(f) => ("on", 0, f),
+                BlameLineNumbers::PerBlock(f) => ("block", 0, f),
+                BlameLineNumbers::Every(n, f) => ("every", *n, f),
+            };
+            Ok(format!(
+                "ok {},{},{},{},{},{}",
+                kind,
+                n,
+                hex(f.prefix.as_str()),
+                opt_num(f.width),
+                align_code(f.alignment_spec),
+                hex(f.suffix.as_str())
+            ))
+        }
+        ("meta", [line]) => {
+            let line = unhex(line)?;
+            Ok(
+                match parse_git_blame_line(&line, &cfg.blame_timestamp_format) {
+                    None => "ok none".to_string(),
+                    Some(b) => {
+                        let data = format::parse_line_number_format(
+                            &cfg.blame_format,
+                            &BLAME_PLACEHOLDER_REGEX,
+                            false,
+                        );
+                        let meta = format_blame_metadata(&data, &b, cfg);
+                        let ts = match &cfg.blame_timestamp_output_format {
+                            Some(f) => b.time.format(f).to_string(),
+                            None => "?".to_string(),
+                        };
+                        format!(
+                            "ok {} {} {}",
+                            hex(&meta),
+                            ansi::measure_text_width(&meta),
+                            hex(&ts)
+                        )
+                    }
+                },
+            )
+        }
+        ("number", [n, rep]) => {
+            let (p, s, q) =
+                format_blame_line_number(&cfg.blame_separator_format, num(n)?, num(rep)? != 0);
+            Ok(format!("ok {} {} {}", hex(p), hex(&s), hex(q)))
+        }
+        ("widths", [s]) => {
+            let s = unhex(s)?;
+            let per: Vec<String> = s
+                .chars()
+                .map(|c| UnicodeWidthChar::width(c).unwrap_or(0).to_string())
+                .collect();
+            Ok(format!(
+                "ok {} {} {}",
+                UnicodeWidthStr::width(s.as_str()),
+                ansi::measure_text_width(&s),
+                per.join(" ")
+            )
+            .trim_end()
+            .to_string())
+        }
+        ("stream", [n, lines @ ..]) => {
+            if num(n)? != lines.len() {
+                return Err("blame.stream: count mismatch".into());
+            }
+            let lines = lines
+                .iter()
+                .map(|l| unhex(l))
+                .collect::<Result<Vec<_>, _>>()?;
+            // `handle_blame_line` asks for the calling process (file name for the syntax);
+            // `verif_hooks::run` has pinned it (DELTA_VERIF_HOOK_CALLER).
+            let mut out: Vec<u8> = Vec::new();
+            let mut info: Vec<(bool, String)> = Vec::new();
+            {
+                let mut machine = StateMachine::new(&mut out, cfg);
+                for raw in &lines {
+                    machine.raw_line = raw.clone();
+                    machine.line = ansi::strip_ansi_codes(raw);
+                    let handled = machine.handle_blame_line().map_err(|e| e.to_string())?;
+                    if !handled {
+                        machine.emit_line_unchanged().map_err(|e| e.to_string())?;
+                        info.push((false, "-".to_string()));
+                        continue;
+                    }
+                    let git_styled = matches!(
+                        paint::parse_style_sections(raw, cfg).first(),
+                        Some((style, _)) if style != &Style::default()
+                    );
+                    let colour = if git_styled {
+                        "git".to_string()
+                    } else {
+                        match &machine.state {
+                            State::Blame(key) => machine
+                                .blame_key_colors
+                                .get(key)
+                                .map(|c| hex(c))
+                                .unwrap_or_else(|| "-".to_string()),
+                            _ => "-".to_string(),
+                        }
+                    };
+                    info.push((true, colour));
+                }
+                machine.painter.emit().map_err(|e| e.to_string())?;
+            }
+            let text = String::from_utf8_lossy(&out).to_string();
+            let mut rows: Vec<&str> = text.split('\n').collect();
+            if rows.last() == Some(&"") {
+                rows.pop();
+            }
+            if rows.len() != info.len() {
+                return Ok(format!(
+                    "ok ROWS-MISMATCH {} {} {}",
+                    rows.len(),
+                    info.len(),
+                    hex(&text)
+                ));
+            }
+            let items: Vec<String> = info
+                .iter()
+                .zip(rows.iter())
+                .map(|((handled, colour), row)| {
+                    format!(
+                        "{},{},{}",
+                        if *handled { 1 } else { 0 },
+                        colour,
+                        hex(&ansi::strip_ansi_codes(row))
+                    )
+                })
+                .collect();
+            Ok(format!("ok {}", items.join(" ")).trim_end().to_string())
+        }
+        _ => Err(format!("unknown op or arity: blame.{op}")),
+    }
 }
